@@ -49,7 +49,7 @@ RULE = ("Hypothesis-generated (array pair recipe, request relation, invalid mode
         "(nan/inf) points are among the candidates of a call with request > 0, "
         "or a 'limit events' value below the number of otherwise passing events "
         "is applied; distinct = sha1 of the canonical JSON spec")
-BUDGET = {"quick": 2400, "thorough": 40000}
+BUDGET = {"quick": 4800, "thorough": 60000}
 ESSENTIAL = ["level:grid", "level:rand", "level:ds", "rand:selects",
              "grid:branch-remove", "grid:branch-add", "grid:pad-invalid",
              "scatter:branch-remove", "scatter:branch-add",
@@ -193,6 +193,7 @@ def st_step(draw, kinds=tuple(REQ_KINDS)):
         "limit": {"kind": draw(st.sampled_from(LIMIT_KINDS)),
                   "u": draw(st.floats(0, 1, exclude_max=True, allow_nan=False,
                                       width=32))},
+        "pending": draw(st.sampled_from([False, False, True])),
         "scatter": draw(st.one_of(st.none(), _st_scatter(kinds),
                                   _st_scatter(kinds), _st_scatter(kinds))),
     }
@@ -565,6 +566,30 @@ def _run_grid(spec, rec):
             done.append((req, rm, cls, keep))
     rec.check(_same(a, a0) and _same(b, b0), "grid/input-modified",
               "input arrays were modified")
+    # same first array, other second array (memoised function: the answer
+    # must follow the arguments of *this* call)
+    if done and n >= 2:
+        req, rm, cls, _ = done[-1]
+        b2 = b0[::-1].copy()
+        valid2 = _finite(a0) & _finite(b2)
+        if not (0 < req < int(valid2.sum())
+                and _is_const(a0[valid2], b2[valid2])):
+            rec.cls("grid:second-array-changed")
+            try:
+                asd, bsd, keep2 = downsampling.downsample_grid(
+                    a, b2, samples=req, remove_invalid=rm, ret_idx=True)
+                c2 = _rel(req, int(valid2.sum()), n) + "/" + \
+                    ("rm" if rm else "keep") + "/second-array-changed"
+                rec.check(_same(asd, a0[keep2]) and _same(bsd, b2[keep2]),
+                          f"grid/values/{c2}",
+                          "returned values differ from input[mask]")
+                _check_mask(rec, "grid", c2, keep2, cand, valid2, req, rm, True)
+            except Exception as e:  # noqa
+                icls = _raise_cls(req, rm, n, int(valid2.sum()), False,
+                                  "second-array-changed")
+                rec.fail(f"grid/raises-{type(e).__name__}/{icls}",
+                         f"downsample_grid(a, b[::-1], samples={req}, "
+                         f"remove_invalid={rm}) raised {e!r}")
     # reproducibility: fresh memo cache, other global RNG state, copies
     for k, (req, rm, cls, keep) in enumerate(done):
         _clear_memo()
@@ -827,9 +852,22 @@ def _run_ds_inner(spec, rec, fac):
         sc = stp["scatter"]
         if sc is not None:
             nsc += 1
+            pend = bool(stp.get("pending")) and n > 0
+            if pend:
+                # settings changed but not applied: the scatter data must
+                # still follow the filter as it was last applied
+                rec.cls("ds:pending-settings")
+                m0 = bool(ds.filter.manual[0])
+                ds.filter.manual[0] = not m0
+                ds.config["filtering"]["limit events"] = 1
             _scatter(spec, rec, ds, sc, fa, xd, yd, si)
-            rec.check(_same(ds.filter.all, fa), "scatter/filter-modified",
+            rec.check(_same(ds.filter.all, fa),
+                      "scatter/filter-modified/"
+                      + ("pending-settings" if pend else "applied-settings"),
                       "get_downsampled_scatter changed filter.all")
+            if pend:
+                ds.filter.manual[0] = m0
+                ds.config["filtering"]["limit events"] = int(L)
     if spec["child_check"]:
         fa = ds.filter.all.copy()
         ch = dclab.new_dataset(ds)
